@@ -439,11 +439,15 @@ def _sweep68_chunk_(job):
 
 
 def _run_sweep68(ctx, pool, nwords_log2, full):
-    import numpy as np
+    """returns (evaluations, complete): `complete` is True when `full` was asked for and every one of the 2^32 words
+    was evaluated inside the time budget (C07_SWEEP_BUDGET_S, default 1020 s); the chunks are visited in bit-reversed
+    order, so a sweep cut short by the budget is still a uniform stratified sample over sign x exponent."""
     jobs = []
     if full:
-        step = 1 << 21
-        jobs = [('range', a, a + step, 16) for a in range(0, 1 << 32, step)]
+        nb = 11
+        step = 1 << (32 - nb)
+        order = [int(format(k, f'0{nb}b')[::-1], 2) for k in range(1 << nb)]
+        jobs = [('range', a * step, (a + 1) * step, 16) for a in order]
     else:
         # stratified: for every sign x exponent (512) a run of consecutive mantissas at a random position + the edges
         per = (1 << nwords_log2) // 512
@@ -453,13 +457,23 @@ def _run_sweep68(ctx, pool, nwords_log2, full):
             ws = list(range(base, base + 64)) + list(range(base + (1 << 23) - 64, base + (1 << 23))) \
                 + list(range(base + (1 << 22) - 32, base + (1 << 22) + 32)) + list(range(base + start, base + start + per))
             jobs.append(('list', ws, None, 4))
-    total = 0
+    budget = float(os.environ.get('C07_SWEEP_BUDGET_S', '1020'))
+    t0 = time.time()
+    total = done = 0
     for n, fails in pool.imap_unordered(_sweep68_chunk, jobs, 1):
         total += n
+        done += 1
         _report(ctx, fails)
+        if full and time.time() - t0 > budget and done < len(jobs):
+            break
     ctx.count('oracle_cases', total)
     ctx.count('sweep68_evaluations', total)
-    return total
+    complete = bool(full and done == len(jobs))
+    if full:
+        ctx.extra['code68_sweep_words'] = done * (1 << 21)
+        ctx.note(f'code 68 sweep: {done}/{len(jobs)} chunks of 2^21 words in {time.time() - t0:.0f} s'
+                 + ('' if complete else ' (time budget reached: NOT exhaustive, stratified prefix in bit-reversed order)'))
+    return total, complete
 
 
 # ------------------------------------------------------------------ RP66V1
@@ -784,8 +798,9 @@ def run(ctx):
         _run_lis(ctx, pool)
         _run_to68(ctx, pool)
         full = ctx.tier == 'thorough' and os.environ.get('C07_FULL', '1') == '1'
-        n = _run_sweep68(ctx, pool, 22, full)
         _run_rp(ctx, pool)
+        n, full = _run_sweep68(ctx, pool, 22, full)
+        pool.terminate()
     ctx.extra['exhaustive'] = True
     ctx.extra['exhaustive_scope'] = (
         'every word of the 8-bit codes (LIS 56, 66, 77; RP66V1 SSHORT, USHORT, STATUS) and 16-bit codes (LIS 49, 79; RP66V1 '
